@@ -4,6 +4,7 @@ import P2.Drv.C13
 import P2.Drv.C12
 import P2.Drv.C15
 import P2.Drv.C05
+import P2.Drv.C04
 /- p2driver: one request per line (`<prop> <op> <nat args…>`), one answer per line. -/
 open P2.Drv
 
@@ -19,6 +20,7 @@ def dispatch (line : String) : String :=
         else if prop = "c12" then C12.handle op ns
         else if prop = "c15" then C15.handle op ns
         else if prop = "c05" then C05.handle op ns
+        else if prop = "c04" then C04.handle op ns
         else none
       r.getD "BAD-OP"
   | _ => "BAD-LINE"
